@@ -86,6 +86,9 @@ type State struct {
 	keep       map[string]bool
 	memo       map[string]View
 	ver        int // heap version: changes with every write or havoc, not with allocation
+	verOld     int // version of the memory that existed before the current function was called
+	uid        int
+	verMemo    map[string]int
 }
 
 type heapSig struct {
@@ -100,6 +103,13 @@ func (e *Enc) newState(k stKind, prev *State) *State {
 	}
 	e.verCtr++
 	s.ver = e.verCtr
+	s.uid = e.verCtr
+	if prev != nil {
+		s.verOld = prev.verOld
+	}
+	if e.writesOld && (k == sStore || k == sCopy || k == sFill || k == sHavoc) {
+		s.verOld = e.verCtr // the function is allowed to write pre-existing memory (modifies clause)
+	}
 	return s
 }
 
@@ -327,4 +337,57 @@ func (e *Enc) refBound(heap, term, ub string) {
 
 func sliceWF(s string) string {
 	return fmt.Sprintf("(and (<= 0 (slen %s)) (<= (slen %s) (scap %s)) (<= 0 (soff %s)) (<= 0 (sarr %s)) (=> (= (sarr %s) 0) (= (scap %s) 0)))", s, s, s, s, s, s, s)
+}
+
+// verOf: identity of the last state that may have changed the contents of pre-existing or reachable cells
+// of one heap (a store, a copy, a fill, a havoc, a loop that writes it). Calls that respect the default
+// frame do not change any object that existed before them.
+func (e *Enc) verOf(s *State, heap string) int {
+	if s == nil {
+		return 0
+	}
+	if s.verMemo == nil {
+		s.verMemo = map[string]int{}
+	}
+	if v, ok := s.verMemo[heap]; ok {
+		return v
+	}
+	var v int
+	switch s.kind {
+	case sInit:
+		v = 0
+	case sStore, sCopy, sFill:
+		if s.heap == heap && !(len(s.loc) > 0 && e.privateRefs[s.loc[0]]) {
+			v = s.uid
+		} else {
+			v = e.verOf(s.prev, heap)
+		}
+	case sHavoc:
+		if s.heap == heap || s.heap == "*" {
+			v = s.uid
+		} else {
+			v = e.verOf(s.prev, heap)
+		}
+	case sCall:
+		v = e.verOf(s.prev, heap)
+	case sLoop:
+		if s.stored[heap] || s.full[heap] || s.full["*"] {
+			v = s.uid
+		} else {
+			v = e.verOf(s.prev, heap)
+		}
+	case sJoin:
+		v = -1
+		for i, p := range s.preds {
+			pv := e.verOf(p, heap)
+			if i == 0 {
+				v = pv
+			} else if pv != v {
+				v = s.uid
+				break
+			}
+		}
+	}
+	s.verMemo[heap] = v
+	return v
 }
